@@ -25,7 +25,11 @@ FRAMES = {
     'A': [('CH-A', 'float64', None)],
     'B': [('DEPTH', 'float64', None), ('AMP', 'int16', 2)],
     'C': [('U8', 'uint8', None), ('F32', 'float32', 3), ('I32', 'int32', None)],
+    # index channel with a LOSSY cast (float64 depths that float32 cannot hold exactly): the frame's index metadata
+    # must come out the same whichever way the data are supplied
+    'E': [('DEPTH', 'float64', None), ('VAL', 'int16', None)],
 }
+CASTS_OF = {'E': {'DEPTH': 'float32'}}
 SRC = ['inline', 'dict', 'struct', 'h5']
 
 
@@ -67,7 +71,10 @@ def _pats(frame, rows):
     for i, (name, dt, w) in enumerate(FRAMES[frame]):
         n = rows * (w or 1)
         p = PAL[dt]
-        if i == 0 and dt == 'float64':
+        if frame == 'E' and i == 0:
+            import struct
+            pat = [int.from_bytes(struct.pack('>d', 2500.1 + 0.1 * k), 'big') for k in range(rows)]
+        elif i == 0 and dt == 'float64':
             pat = [0x4000000000000000 + (k << 48) for k in range(rows)]      # 2.0, 2.5.. increasing index-like values
         else:
             pat = [p[(3 * i + k) % len(p)] for k in range(n)]
@@ -133,10 +140,11 @@ def make_spec(c, reference=False):
             hi = rows if to is None else to
             pat_r = pat[frm * per: hi * per]
             arr = S.arr_spec(dt, [hi - frm] if w is None else [hi - frm, w], pat_r)
-            ops.append(S.op_add('channel', f'C{i}', name, data=arr))
+            ckw = {'cast_dtype': {'$dtype': CASTS_OF[c['frame']][name]}} if name in CASTS_OF.get(c['frame'], {}) else {}
+            ops.append(S.op_add('channel', f'C{i}', name, data=arr, **ckw))
         else:
             arr = S.arr_spec(dt, [rows] if w is None else [rows, w], pat, bo=c.get('bo', '<'))
-            kw = {}
+            kw = {'cast_dtype': {'$dtype': CASTS_OF[c['frame']][name]}} if name in CASTS_OF.get(c['frame'], {}) else {}
             ds = name
             if c['mapping'] == 'swapped':
                 ds = {'P': 'Q', 'Q': 'P'}[name]          # channel P reads data set Q and vice versa
@@ -153,7 +161,7 @@ def make_spec(c, reference=False):
             data.append((name if c['mapping'] == 'swapped' else ds, arr))
             ops.append(S.op_add('channel', f'C{i}', name, **kw))
         refs.append({'$ref': f'C{i}'})
-    fkw = {'index_type': 'BOREHOLE-DEPTH'} if c['frame'] == 'B' else {}
+    fkw = {'index_type': 'BOREHOLE-DEPTH'} if c['frame'] in ('B', 'E') else {}
     ops.append(S.op_add('frame', 'F0', 'FRAME', channels=refs, **fkw))
     sp = {'sul': {'max_record_length': 8192}, 'ops': ops, 'write': {}}
     if reference:
